@@ -176,6 +176,13 @@ Theorem redeploy_without_refresh_refuted :
 Proof. exact redeploy_without_refresh_refuted_witness. Qed.
 Print Assumptions redeploy_without_refresh_refuted.
 
+(** ... and the source as it is now has the renewal: skyway's EVMActivatedChain subscriber calls
+    refreshOpenBatchCheckpoints, which lists the open batches, recomputes their checkpoints and deletes their
+    confirmations (translator; fix a05a08cf). *)
+Theorem compass_change_renews_open_batches : Gen.C06.redeploy_refreshes_open_batches = true.
+Proof. exact eq_refl. Qed.
+Print Assumptions compass_change_renews_open_batches.
+
 (** What the translator found in the source about the readers the clearing and duplicate checks depend on: none of the
     functions of skyway's confirmation store reachable from DeleteBatchConfirms and ConfirmBatch, nor the consensus
     queue's AddSignature, contains a construct that can end its scan early or bound it (a limit, a break that is not
